@@ -54,7 +54,7 @@ func offers(ae, coding string) bool {
 
 func main() {
 	rep := kit.NewReport("C02", "exploration",
-		"6 site variants (static, browse, browse+servearchive, address with path prefix, a Casketfile named like an index page, an earlier site on the listener rooted elsewhere) x request targets of 1..3 segments over an 18-symbol adversarial segment alphabet (x trailing slash x doubled leading slash) x {5 queries x html/json, 9 Accept-Encoding values (with zero qualities), HEAD}; every token found in the decoded/unarchived body must belong to the file the cleaned path names, its directory index, an accepted sibling, or (archives) a non-hidden file below it; redirects must start with exactly one '/'; distinct_nontrivial = outcome classes")
+		"8 site variants (also: a Casketfile named like a precompressed sibling, a catch-all site with absolute-form request targets; static, browse, browse+servearchive, address with path prefix, a Casketfile named like an index page, an earlier site on the listener rooted elsewhere) x request targets of 1..3 segments over an 18-symbol adversarial segment alphabet (x trailing slash x doubled leading slash) x {5 queries x html/json, 9 Accept-Encoding values (with zero qualities), HEAD}; every token found in the decoded/unarchived body must belong to the file the cleaned path names, its directory index, an accepted sibling, or (archives) a non-hidden file below it; redirects must start with exactly one '/'; distinct_nontrivial = outcome classes")
 	kit.Init()
 	kit.Log.Off.Store(true)
 	base := kit.TempDir("c02")
@@ -94,6 +94,10 @@ func main() {
 	}
 	gen(nil)
 	targets = append(targets, "/")
+	// absolute-form request targets (a proxy-style request line): the host named there is not the site's
+	for _, t := range []string{"/dirx", "/dir", "/a.txt/", "/dirx/index.html", "//dirx", "/"} {
+		targets = append(targets, "http://evil.test"+t, "http://evil.test:8080"+t)
+	}
 	rep.Set("targets", len(targets))
 	// hidden: where the Casketfile lies inside the root; pre: sites declared before the one under test
 	elsewhere := fmt.Sprintf("other.test:8080 {\n\troot %s\n}\n", filepath.Join(base, "outside"))
@@ -106,6 +110,10 @@ func main() {
 		{"casketfile-named-like-an-index/browse+archive", "a.test:8080", "\tbrowse / {\n\t\tservearchive\n\t}\n", "", "dirx/index.html", ""},
 		// an earlier site on the same listener whose root lies elsewhere
 		{"second-site/browse+archive", "a.test:8080", "\tbrowse / {\n\t\tservearchive\n\t}\n", "", "Casketfile", elsewhere},
+		// the configuration file has the name of a precompressed sibling
+		{"casketfile-named-like-a-sibling/static", "a.test:8080", "", "", "a.txt.gz", ""},
+		// a catch-all site: also answers absolute-form request targets that name another host
+		{"catch-all/browse", ":8080", "\tbrowse\n", "", "Casketfile", ""},
 	}
 	queries := []string{"", "archive=zip", "archive=tar.gz", "sort=size&order=desc", "limit=1"}
 	aes := []string{"gzip", "br", "zstd, gzip", "identity", "gzip;q=0", "identity, gzip;q=0", "br;q=0, gzip", "zstd;q=0.0, br;q=0", "gzip;q=0.5"}
@@ -175,7 +183,7 @@ func main() {
 					if _, ok := tokens[f]; ok && f != hidden {
 						allowed[f] = true
 						for _, ext := range []string{".gz", ".br", ".zst"} {
-							if _, ok := tokens[f+ext]; ok && offers(q.ae, map[string]string{".gz": "gzip", ".br": "br", ".zst": "zstd"}[ext]) {
+							if _, ok := tokens[f+ext]; ok && f+ext != hidden && offers(q.ae, map[string]string{".gz": "gzip", ".br": "br", ".zst": "zstd"}[ext]) {
 								allowed[f+ext] = true
 							}
 						}
@@ -270,6 +278,9 @@ func main() {
 						who := "static"
 						if rec.Status == 301 {
 							who = "browse"
+						}
+						if strings.HasPrefix(tgt, "http://") {
+							who += "/absolute-form-request-target"
 						}
 						rep.Violation("C02/redirect-leaves-origin/"+who, fmt.Sprintf("Location %q does not start with exactly one '/'", loc), mk())
 					}
